@@ -29,7 +29,7 @@ SETS = {
     "C06": [("finder", "ParserState.get_setmap"), ("finder", "ParserState.get_tree"), ("finder", "ParserState.get_map"), ("finder", "find"), ("report", "files"),
             ("report", "FileTree.*"), ("report", "summary"), ("report", "extract_platforms"), ("coverage.__main__", "_compute"), ("tree", "_tree"), ("__main__", "_main")],
     "C07": [("report", "coverage"), ("report", "average_coverage"), ("report", "distance"), ("report", "divergence"), ("report", "extract_platforms"), ("report", "clustering"),
-            ("report", "summary")],
+            ("report", "summary"), ("util", "safe_open_write_binary"), ("util", "ensure_ext")],  # clustering() writes its plot through these before it prints the matrix
     "C08": [("finder", ALL), ("platform", ALL), ("config", "ArgumentParser.*"), ("config", "load_database"), ("config", "_*Action.*"), ("__main__", "_main"), ("tree", "_tree"),
             ("preprocessor", "*Node.evaluate_for_platform")],
     "C09": [("__init__", "CodeBase.*"), ("source", ALL)],
